@@ -126,18 +126,18 @@ def build_wall_case(c):
     if c["perim"]:
         meta["d_perim_insulation"] = 1.0
         meta["rn_perim_insulation"] = 1.5
-    spaces = [{"id": s1, "name": "S1", "height": 3.0, "kind": KIND[c["this"]], "loads": None, "thermostat": None}]
+    spaces = [{"id": s1, "name": "S1", "height": 2.5, "kind": KIND[c["this"]], "loads": None, "thermostat": None}]
     if KIND[c["this"]] == "CONDITIONED":
         del spaces[0]["kind"]
     walls = []
     if c["bounds"] == "GROUND":
         spaces[0]["z"] = -c["depth"] / 100.0
         z = spaces[0]["z"]
-        side = lambda nm, b, cn, w, az, pos: wall(nm, b, cn, s1, 90.0, pos, rect(w, 3.0), az)
+        side = lambda nm, b, cn, w, az, pos: wall(nm, b, cn, s1, 90.0, pos, rect(w, 2.5), az)
         sides = [side("South", "GROUND", "REF", 4.0, 0.0, [0.0, 0.0, z]), side("North", "GROUND", "REF", 4.0, 180.0, [4.0, 3.0, z]),
                  side("East", "EXTERIOR", "REF", 3.0, 90.0, [4.0, 0.0, z]), side("West", "ADIABATIC", "REF", 3.0, -90.0, [0.0, 3.0, z])]
         slab = wall("Slab", "GROUND", "REF", s1, 180.0, [0.0, 0.0, z], [[0.0, 0.0], [4.0, 0.0], [4.0, -3.0], [0.0, -3.0]])
-        roof = wall("Roof", "EXTERIOR", "REF", s1, 0.0, [0.0, 0.0, z + 3.0], rect(4.0, 3.0))
+        roof = wall("Roof", "EXTERIOR", "REF", s1, 0.0, [0.0, 0.0, z + 2.5], rect(4.0, 3.0))
         if c["tilt"] == "BOTTOM":
             slab["name"], slab["cons"] = "TEST", uid("cons-T")
         elif c["tilt"] == "SIDE":
@@ -148,7 +148,7 @@ def build_wall_case(c):
             # the west side borders another space (conditioned or not): part of the exposed perimeter only when this space
             # is conditioned and the other is not
             sides[3]["bounds"], sides[3]["next_to"] = "INTERIOR", s2
-            sp2 = {"id": s2, "name": "S2", "height": 3.0, "kind": KIND[c["next"]], "loads": None, "thermostat": None, "n_v": 0.5}
+            sp2 = {"id": s2, "name": "S2", "height": 2.5, "kind": KIND[c["next"]], "loads": None, "thermostat": None, "n_v": 0.5}
             if c["next"] == "C":
                 del sp2["kind"]
             spaces.append(sp2)
@@ -168,7 +168,7 @@ def build_wall_case(c):
                 nxt = uid("space-missing")
             else:
                 nxt = s2
-                sp2 = {"id": s2, "name": "S2", "height": 3.0, "kind": KIND[c["next"]], "loads": None, "thermostat": None}
+                sp2 = {"id": s2, "name": "S2", "height": 2.5, "kind": KIND[c["next"]], "loads": None, "thermostat": None}
                 if c["next"] == "C":
                     del sp2["kind"]
                 if c["vent"] == "own":
